@@ -27,6 +27,18 @@ CHECKS = {
          "Trusted: the Model class in pyprops/c05.py as the reading of docs/directives.md and the statement. Labels/$ are "
          "only placed on address-unit boundaries; 64-bit items do not reference 32-bit symbols; three genuine defects are "
          "listed as open findings and their input classes are excluded/attributed by predicate.", "DESIGN.md 3/C05"),
+ "C10": ("hypothesis+nvserve",
+         "Hypothesis conditional trees + condition ASTs vs independent branch-selection model; fixed malformed corpus",
+         "Generated-input search: Hypothesis builds programs with a prelude of numeric defines/.set/labels and trees "
+         "(nesting <= 5, sequences) of .if/.ifdef/.ifndef/.else/.endif in both '.' and '#' spelling whose branches hold "
+         "distinct marker bytes, labels, defines, macro definitions and further conditionals, with condition ASTs over "
+         "the documented operators. The sanitized assembler's image and symbol table must equal the markers/labels of "
+         "exactly the branches an independent evaluator selects (names defined only in untaken branches stay undefined "
+         "for later conditions). 21 malformed/unterminated conditionals must be rejected in-process and by the CLI "
+         "(exit 1, no output file).",
+         "Trusted: ev()/model() in pyprops/c10.py (C semantics: ! > comparison > && > ||). Comparisons are not chained, "
+         "'!!' is never generated, conditions never reference later labels (precondition of the statement).",
+         "DESIGN.md 3/C10"),
 }
 
 NOT_YET = "check not built yet (work in progress; see DESIGN.md section 3)"
